@@ -654,6 +654,10 @@ impl SvgElement {
     /// Calculate bounding box of target_shape inside self
     pub fn inscribed_bbox(&self, target_shape: &str) -> Result<Option<BoundingBox>> {
         let zstr = "0".to_owned();
+        if self.has_unresolved_geometry() {
+            // see bbox_raw()
+            return Err(SvgdxError::MissingBoundingBox(self.to_string()));
+        }
         match (target_shape, self.name.as_str()) {
             // rect inside circle
             ("rect", "circle") => {
@@ -811,7 +815,46 @@ impl SvgElement {
         Ok(el_bbox)
     }
 
+    /// Has this element still got positioning attributes which are consumed
+    /// when an element is resolved (compound / relative svgdx attributes, or
+    /// geometry attributes which are not native to this shape)?
+    ///
+    /// Elements are registered - so they can be looked up by id - before they
+    /// are resolved, and an element which fails (e.g. because it contains a
+    /// forward reference) stays registered in that state until it is retried.
+    pub fn has_unresolved_geometry(&self) -> bool {
+        let common = [
+            "xy", "cxy", "xy1", "xy2", "xy-loc", "dxy", "wh", "dwh", "dw", "dh", "rxy", "surround",
+            "inside",
+        ];
+        let foreign: &[&str] = match self.name.as_str() {
+            "box" | "rect" | "image" | "svg" | "foreignObject" => {
+                &["x1", "y1", "x2", "y2", "cx", "cy", "r"]
+            }
+            "circle" => &[
+                "x", "y", "x1", "y1", "x2", "y2", "rx", "ry", "width", "height",
+            ],
+            "ellipse" => &["x", "y", "x1", "y1", "x2", "y2", "r", "width", "height"],
+            "line" => &[
+                "x", "y", "cx", "cy", "r", "rx", "ry", "width", "height", "start", "end",
+            ],
+            "polyline" => &["start", "end"],
+            _ => &[],
+        };
+        common.iter().chain(foreign).any(|a| self.has_attr(a))
+    }
+
     fn bbox_raw(&self) -> Result<Option<BoundingBox>> {
+        let bbox = self.bbox_raw_inner()?;
+        if bbox.is_some() && self.has_unresolved_geometry() {
+            // Not positioned yet: a box computed now would silently use default (zero)
+            // coordinates. Fail instead; the referring element is retried later.
+            return Err(SvgdxError::MissingBoundingBox(self.to_string()));
+        }
+        Ok(bbox)
+    }
+
+    fn bbox_raw_inner(&self) -> Result<Option<BoundingBox>> {
         // For SVG 'Basic shapes' (e.g. rect, circle, ellipse, etc) for x/y and similar:
         // "If the attribute is not specified, the effect is as if a value of "0" were specified."
         // The same is not specified for 'size' attributes (width/height/r etc), so we require
@@ -1027,7 +1070,12 @@ impl SvgElement {
     fn eval_size_attr(&self, name: &str, value: &str, ctx: &impl ElementMap) -> Result<String> {
         if let Ok(attr_ss) = ScalarSpec::from_str(name) {
             if let (Some(el), remain) = split_relspec(value, ctx)? {
-                if let Ok(Some(bbox)) = ctx.get_element_bbox(el) {
+                // Note errors / a missing bbox must be reported rather than leaving the
+                // value as-is: the referenced element may simply not be resolved yet.
+                let bbox = ctx
+                    .get_element_bbox(el)?
+                    .ok_or_else(|| SvgdxError::MissingBoundingBox(el.to_string()))?;
+                {
                     // default value - same 'type' as attr name, e.g. y2 => ymax
                     let mut v = bbox.scalarspec(attr_ss);
                     // "[~scalarspec][ delta]"
@@ -1048,9 +1096,10 @@ impl SvgElement {
     fn eval_pos_attr(&self, name: &str, value: &str, ctx: &impl ElementMap) -> Result<String> {
         if let Ok(attr_ss) = ScalarSpec::from_str(name) {
             if let (Some(el), remain) = split_relspec(value, ctx)? {
-                if let Ok(Some(bbox)) = ctx.get_element_bbox(el) {
-                    return self.pos_attr_helper(remain, &bbox, attr_ss);
-                }
+                let bbox = ctx
+                    .get_element_bbox(el)?
+                    .ok_or_else(|| SvgdxError::MissingBoundingBox(el.to_string()))?;
+                return self.pos_attr_helper(remain, &bbox, attr_ss);
             }
         }
         Ok(value.to_owned())
@@ -1228,11 +1277,15 @@ impl SvgElement {
             "use" => {
                 // Need to determine top-left corner of the target bbox which
                 // may not be (0, 0), and offset by the equivalent amount.
-                if let Some(bbox) = self.get_target_element(ctx)?.bbox()? {
-                    let (dx, dy) = bbox.locspec(LocSpec::TopLeft);
-                    self.set_attr("x", &fstr(x - dx));
-                    self.set_attr("y", &fstr(y - dy));
-                }
+                // (No bbox: the target may not be resolved yet, so fail and retry
+                // rather than leave this element unpositioned.)
+                let target = self.get_target_element(ctx)?;
+                let bbox = target
+                    .bbox()?
+                    .ok_or_else(|| SvgdxError::MissingBoundingBox(target.to_string()))?;
+                let (dx, dy) = bbox.locspec(LocSpec::TopLeft);
+                self.set_attr("x", &fstr(x - dx));
+                self.set_attr("y", &fstr(y - dy));
             }
             _ => {
                 self.set_attr("x", &fstr(x));
